@@ -476,3 +476,53 @@ pub fn chain4_alphabet() -> Vec<Entry> {
     }
     v
 }
+
+/// Record types of the alphabet whose presentation format ends in a free-form hex / base64 field
+/// in which the type's RFC allows white space (the field may be written as several tokens):
+/// TLSA (RFC 6698 2.2), SMIMEA (RFC 8162 2, = TLSA), DS (RFC 4034 5.3), CERT (RFC 4398 2.2).
+pub const SPLITTABLE: [(&str, &str); 4] = [("TLSA", "hex"), ("SMIMEA", "hex"), ("DS", "hex"), ("CERT", "b64")];
+/// Trailing blobs whose RFC is silent about inner white space (RFC 4255 3.2 SSHFP, RFC 7929 2.3
+/// OPENPGPKEY): splitting is only observed, not judged.
+pub const SPLIT_OBSERVED: [(&str, &str); 2] = [("SSHFP", "hex"), ("OPENPGPKEY", "b64")];
+
+/// Entries (envelope a.<origin> 300 IN) whose RDATA ends in a blob: every such shape of the
+/// alphabet, followed by longer blobs (used by the thorough tier). Returns (entries, number of
+/// regular ones).
+pub fn blob_entries() -> (Vec<Entry>, usize) {
+    use Field::*;
+    let env = (o(&["a"]), 300u32, "IN");
+    let mut v: Vec<Entry> = rdata_shapes()
+        .iter()
+        .filter(|s| SPLITTABLE.iter().chain(SPLIT_OBSERVED.iter()).any(|(t, _)| *t == s.0) && matches!(s.2.last(), Some(Lit(_))))
+        .map(|s| entry(&env, s))
+        .collect();
+    let regular = v.len();
+    let d = bytes(128, 17);
+    let f = vec![Int(3), Int(1), Int(2), Lit(hex(&d))];
+    v.push(entry(&env, &("TLSA", "TLSA long (128 octets)".to_string(), f.clone(), RData::TLSA(TLSA::new(3.into(), 1.into(), 2.into(), d.clone())))));
+    v.push(entry(&env, &("SMIMEA", "SMIMEA long (128 octets)".to_string(), f, RData::SMIMEA(SMIMEA::new(3.into(), 1.into(), 2.into(), d)))));
+    let d = bytes(64, 19);
+    v.push(entry(
+        &env,
+        &(
+            "DS",
+            "DS long (64 octets)".to_string(),
+            vec![Int(4711), Int(13), Int(4), Lit(hex(&d))],
+            RData::DNSSEC(DNSSECRData::DS(DS::new(4711, Algorithm::from_u8(13), DigestType::from(4), d))),
+        ),
+    ));
+    for (n, seed) in [(598usize, 23u8), (599, 29), (600, 31)] {
+        // three residues mod 3: no padding, one and two padding characters
+        let d = bytes(n, seed);
+        v.push(entry(
+            &env,
+            &(
+                "CERT",
+                format!("CERT long ({n} octets)"),
+                vec![Int(1), Int(2), Int(3), Lit(b64(&d))],
+                RData::CERT(CERT::new(cert::CertType::from(1), 2, cert::Algorithm::from(3), d)),
+            ),
+        ));
+    }
+    (v, regular)
+}
